@@ -43,6 +43,22 @@ CLAIMED = {
             'Trusted: the exact recovery of the integer numerator from the returned float (k/n == value) and the value '
             'maps in vh/drivers/c09.py.',
             '5/C09'),
+    'C02': ('TLA+ axis lattice (Axis.tla: bin x position class, admissible answer sets incl. the documented tolerance '
+            'band) and Binning.tla (properties + integer model of the tolerance formula) model-checked by TLC; every '
+            'abstract case concretised on decimal grids; exact-class traces of long axes validated by TLC',
+            'TLC checks HalfOpen, BelowIsOut, OpenTopAbsorbs, EdgeOpensItsBin, ClosedTopIsOut and Monotone for all axes '
+            'with n<=4 edges, both modes, all position classes, and that the integer model of floor((p-a0+2t)/(h-t)) '
+            'never drops a value at/above an edge and lifts only inside a band growing linearly with the bin index. '
+            'Every (n, mode, position) case is realised on 16-30 decimal grids in float64/float32/list/scalar form and '
+            'the real bin1d_vec must answer inside the TLC-given set; on long axes (CSEP magnitude grids, NZ / global '
+            'region edge arrays, the 0.1-degree global edge arrays, 400-bin grids) every edge is probed at 0, +-1..4096 '
+            'ulps (all +-64 in thorough) plus integer inputs, each observation projected exactly to (n, mode, pos, idx) '
+            'and the distinct tuples accepted one by one by TLC. Edge generators are compared bit-for-bit with the '
+            'doubles nearest to start+k*step.',
+            'Float-level claim is by boundary-directed sampling (exhaustive only over the probed ulp offsets). Trusted: '
+            'vh/alpha.py (exact classification with fractions / exact float comparison) and the band definition '
+            '16*eps*(k+2)*max(|a0|,|v|,h).',
+            '5/C02'),
 }
 
 NOT_YET = 'check not built yet in this round (specification planned in DESIGN.md section 5); not claimed until it exists'
